@@ -8,19 +8,19 @@ TRUST = ("Trusted: go/ssa's translation, the gosym interpreter, z3 5.1.0; exact 
          "every counterexample and a sample of path witnesses are replayed against the real build before anything is reported. ")
 claimed = {
  "C19": dict(
-  text="Bounded symbolic execution of the real camelcase.Split and the six converters from their go/ssa form: every byte string up to the bound (quick: Split <= 5 bytes, converters <= 3 bytes; thorough: 7 / 5) is covered by path exploration with solver-decided branch feasibility; assertions (no panic, non-empty words, concatenation == input, invalid UTF-8 => single word, same result twice) are discharged on every path. Nothing is claimed beyond the byte-length bound.",
+  text="Bounded symbolic execution of the real camelcase.Split and the six converters from their go/ssa form: every byte string up to the bound (quick: Split <= 5 bytes, converters <= 3 bytes; thorough: 7 / 5; valid and invalid UTF-8) is covered by path exploration with solver-decided branch feasibility; assertions (no panic, non-empty words, concatenation == input, invalid UTF-8 => single word, same result twice) are discharged on every path. Nothing is claimed beyond the byte-length bound.",
   note="Unicode class predicates are exact SMT definitions generated from the toolchain tables; golang.org/x/text/cases.Title(..).String is a contract stub (total, arbitrary result).", ref="DESIGN.md §3"),
  "C15": dict(
-  text="Bounded symbolic execution of the real ParseTypeRef / TypeRef.String / ParseRef: every reference tree shape up to the bound (quick: 183 shapes of <= 4 levels x <= 2 arguments, 85 shapes with <= 3 arguments, per-node path split on <= 3 levels; thorough: 33 673 shapes of <= 5 levels) with symbolic identifier and path bytes must parse to exactly the reference tree and print back to the input; bracket-free references of arbitrary bytes (<= 5 / <= 8) are split at the last dot and ParseRef agrees.",
-  note="Inside brackets identifier/path bytes are ASCII and 1-2 bytes long; the namer-rewriting half runs NewRawNamer over the real tracker on a nested generic reference with symbolic paths.", ref="DESIGN.md §3 C15"),
+  text="Bounded symbolic execution of the real ParseTypeRef / TypeRef.String / ParseRef: every reference tree shape up to the bound (quick: 183 shapes of <= 4 levels x <= 2 arguments, 85 shapes with <= 3 arguments, per-node path split on <= 3 levels; thorough: 33 673 shapes of <= 5 levels) with symbolic identifier and path bytes must parse to exactly the reference tree and print back to the input; bracket-free references of arbitrary bytes (<= 5 / <= 10) are split at the last dot and ParseRef agrees; PkgImportPathAndExpose agrees with ParseRef on every string of <= 6 / <= 7 arbitrary bytes and on vendored paths; nested generic references (own-package and foreign, rendered repeatedly) are rewritten to import names by the real namer + tracker.",
+  note="Inside brackets identifier/path bytes are ASCII and 1-2 bytes long.", ref="DESIGN.md §3 C15"),
  "C09": dict(
-  text="Bounded symbolic execution of the real snippet.T / Sprintf / Comment / GoDirective / Snippets / Fragments (with the real text/scanner interpreted) against an independent reference renderer executed next to it: equality of panic behaviour and of output bytes for every ASCII format up to the bound (quick: 5 bytes; thorough: 7 bytes), with nil, literal, placeholder-looking and nested-template bindings.",
+  text="Bounded symbolic execution of the real snippet.T / Sprintf / Comment / GoDirective / Snippets / Fragments (with the real text/scanner interpreted) against an independent reference renderer executed next to it: equality of panic behaviour and of output bytes for every ASCII format up to the bound (quick: 6 bytes; thorough: 8 bytes), with nil, literal, placeholder-looking and nested-template bindings.",
   note="Domain restrictions (bare @, nil interface arguments, non-Snippet Sprintf arguments, NUL/BOM/invalid UTF-8) are listed in the evidence under outside_bounds.", ref="DESIGN.md §3 C09"),
  "C12": dict(
   text="(a) Tag half: bounded symbolic execution of the real ExtractCommentTags / splitKV / commentLinesFrom against a reference line classifier for every list of k lines x n ASCII bytes within the bound (every line classified exactly once, order kept, key/value split at the first '=' or space, repeated keys keep all values in order; go: lines skipped). (b) Attribution, partial: the real newPkg comment indexing and Doc/Comment run on a struct type with k <= 3 (thorough 4) fields, on const and type groups and on ungrouped variable declarations, in every combination of no doc / attached doc / detached comment and trailing / no trailing comment per field: Doc is exactly the group directly above, Comment exactly the trailing comment, and a previous line's trailing comment is never reported as documentation.",
   note="PARTIAL: under the engine the AST is harness-built following go/parser's comment-attachment rules (the parser itself cannot run symbolically); every sampled path is replayed natively on the really parsed source, which validates that construction. Layouts with import specs, block or multi-line comments, multi-name specs or several files are not exercised.", ref="DESIGN.md §3 C12"),
  "C14": dict(
-  text="Narrow: the recursion guard visits.visited, on which the termination claim rests, is checked as a lemma by bounded symbolic execution from every pre-state reachable by <= 3 (thorough 4) earlier guard calls with symbolic indexes: a (function, result) pair asked about is cut the next time, a fresh pair is not.",
+  text="Narrow: the recursion guard visits.visited, on which the termination claim rests, is checked as a lemma by bounded symbolic execution from every pre-state reachable by <= 3 (thorough 5) earlier guard calls with symbolic indexes: a (function, result) pair asked about is cut the next time, a fresh pair is not.",
   note="PARTIAL: everything in C14 that analyses go/ast + go/types of real programs (soundness of alternatives, literal returns, closures, determinism) is outside; boundedness of the recursion given a marking guard is a paper argument.", ref="DESIGN.md §3 C14"),
 }
 claimed["C03"] = dict(
